@@ -11,6 +11,7 @@ COMMON_TRUSTED = [
 PROPS = {
     'C02': {
         'units': ['driver'],
+        'native': ['c02_'],
         'kani_quick': [],
         'kani_thorough': [],
         'trusted': [
@@ -57,6 +58,7 @@ PROPS = {
         ],
     },
     'C11': {
+        'native': ['c11_'],
         'units': ['xor'],
         'kani_quick': [],
         'kani_thorough': [],
@@ -68,6 +70,7 @@ PROPS = {
         ],
     },
     'C03': {
+        'native': ['c03_'],
         'units': ['index', 'chain'],
         'kani_quick': [],
         'kani_thorough': [],
@@ -79,6 +82,7 @@ PROPS = {
         ],
     },
     'C04': {
+        'native': ['c04_'],
         'units': ['index', 'c04goal'],
         'kani_quick': [],
         'kani_thorough': [],
@@ -88,6 +92,7 @@ PROPS = {
         ],
     },
     'C09': {
+        'native': ['c09_'],
         'units': ['chain', 'driver'],
         'kani_quick': ['utils_merkle_root_1_to_3'],
         'kani_thorough': ['utils_merkle_root_4_5'],
@@ -100,6 +105,7 @@ PROPS = {
         ],
     },
     'C17': {
+        'native': ['c17_'],
         'units': ['chain'],
         'kani_quick': [],
         'kani_thorough': [],
